@@ -426,82 +426,98 @@ def run_workload(ctx, res, stats, wl, points=None):
     shutil.rmtree(tmpl, ignore_errors=True)
 
 
+OPEN_SETUPS = {'fresh': [], 'populated': [{'op': 'set', 'key': 'old', 'value': BIG}, {'op': 'set', 'key': 'n', 'value': 1}]}
+OPEN_PROG = [{'op': 'set', 'key': 'first', 'value': 1}]
+
+
+def open_kill_template(ctx, kind, shards, setup):
+    tmpl = concdrv.scratch(ctx, 'c07o')
+    if setup:
+        k0 = concdrv.kill_child(tmpl, setup, kill_n=None, kind=kind, settings=SETTINGS, timeout=60, now=SETUP_NOW, shards=shards)
+        if k0['fatal'] or not k0['done']:
+            raise RuntimeError('open_kills setup failed: %r' % k0['fatal'])
+    else:
+        shutil.rmtree(tmpl)
+    return tmpl
+
+
+def open_kill_case(ctx, kind, shards, setup, tmpl, kn):
+    """Kill the child before its kn-th event counted from the start of OPENING the directory, then use the directory from
+    this process.  Returns (problems, kill_child result)."""
+    from props import c06
+    clock = instr.Clock(c05.NOW)
+    d = concdrv.scratch(ctx, 'c07o')
+    shutil.rmtree(d)
+    if setup:
+        shutil.copytree(tmpl, d)
+    k = concdrv.kill_child(d, OPEN_PROG, kill_n=kn, kind=kind, settings=SETTINGS, shards=shards, trace_open=True)
+    problems = []
+    try:
+        with instr.Installed(clock):
+            c = concdrv.make_object(kind, d, SETTINGS, timeout=1, shards=shards)
+            try:
+                for key, v in (('after1', 1), ('after2', BIG2), ('after3', 'x')):
+                    c.set(key, v, retry=True)
+                keys = sorted(c)
+                if len(c) != len(keys):
+                    problems.append(('open_kill:len_wrong', 'len() == %d but %d keys are stored (%r)' % (len(c), len(keys), keys)))
+                for key, v in (('after1', 1), ('after2', BIG2), ('after3', 'x')):
+                    if c.get(key) != v:
+                        problems.append(('open_kill:write_lost', 'item %r stored after the kill reads %r' % (key, c.get(key))))
+                for call in setup:
+                    if c.get(call['key']) != call['value']:
+                        problems.append(('open_kill:old_item_damaged', 'item %r stored before reads %r' % (call['key'], c.get(call['key']))))
+                ws = [w for sh in concdrv.shards_of(c) for w in lib_check(sh)]
+                bad = [w for w in ws if not issubclass(w.category, (diskcache.UnknownFileWarning, diskcache.EmptyDirWarning))]
+                for w in bad[:1]:
+                    problems.append(('open_kill:check_reports', 'check() reports %r' % str(w.message).replace(d, '<dir>')))
+            finally:
+                concdrv.close_object(c)
+        for sig, text in c06.consistency(d, kind, shards)[:2]:
+            if sig != 'unknown_file':
+                problems.append(('open_kill:' + sig, text))
+    except Exception as e:  # noqa
+        problems.append(('open_kill:unusable', 'the directory cannot be opened and used after the kill: %r' % e))
+    shutil.rmtree(d, ignore_errors=True)
+    return problems, k
+
+
 def open_kills(ctx, res, stats, thorough):
     """The kill lands inside the OPENING of a directory (Cache.__init__ creates tables, triggers and settings with many
     statements): of a directory that does not exist yet, and of one that holds items.  Whatever the kill point, a later
     process must be able to open the directory and use it: what it stores is counted (len == number of keys), the
     counters agree with the rows and the files, check() is silent, and items that were there before are intact."""
-    from props import c06
-    clock = instr.Clock(c05.NOW)
-    for label, setup in (('fresh', []), ('populated', [{'op': 'set', 'key': 'old', 'value': BIG}, {'op': 'set', 'key': 'n', 'value': 1}])):
+    for label, setup in OPEN_SETUPS.items():
         for kind, shards in (('cache', 1), ('fanout', 2)):
             if kind == 'fanout' and not thorough and label == 'populated':
                 continue
-            tmpl = concdrv.scratch(ctx, 'c07o')
-            if setup:
-                k0 = concdrv.kill_child(tmpl, setup, kill_n=None, kind=kind, settings=SETTINGS, timeout=60, now=SETUP_NOW, shards=shards)
-                if k0['fatal'] or not k0['done']:
-                    raise RuntimeError('open_kills setup failed: %r' % k0['fatal'])
-            else:
-                shutil.rmtree(tmpl)
+            tmpl = open_kill_template(ctx, kind, shards, setup)
             d0 = concdrv.scratch(ctx, 'c07o')
             shutil.rmtree(d0)
             if setup:
                 shutil.copytree(tmpl, d0)
-            prog = [{'op': 'set', 'key': 'first', 'value': 1}]
-            full = concdrv.kill_child(d0, prog, kill_n=None, kind=kind, settings=SETTINGS, shards=shards, trace_open=True)
+            full = concdrv.kill_child(d0, OPEN_PROG, kill_n=None, kind=kind, settings=SETTINGS, shards=shards, trace_open=True)
             shutil.rmtree(d0, ignore_errors=True)
             if full['fatal'] or not full['done']:
                 res.violations.append(fw.Violation('workload_failed', 'opening a %s %s directory does not complete: %r' % (label, kind, full['fatal']),
-                                                   {'check': 'open_kill', 'kind': kind, 'label': label, 'kill_n': None}))
+                                                   {'check': 'open_kill', 'kind': kind, 'shards': shards, 'label': label, 'kill_n': None}))
                 continue
             n = full['nevents']
             stats['kill_points']['open:%s:%s' % (label, kind)] = n
             step = 1 if (thorough or n <= 120) else 2
             for kn in range(0, n, step):
-                d = concdrv.scratch(ctx, 'c07o')
-                shutil.rmtree(d)
-                if setup:
-                    shutil.copytree(tmpl, d)
-                k = concdrv.kill_child(d, prog, kill_n=kn, kind=kind, settings=SETTINGS, shards=shards, trace_open=True)
-                case = {'check': 'open_kill', 'kind': kind, 'label': label, 'kill_n': kn, 'kill_event': k.get('kill_event'), 'events_before': k['events'][-6:]}
+                problems, k = open_kill_case(ctx, kind, shards, setup, tmpl, kn)
+                case = {'check': 'open_kill', 'kind': kind, 'shards': shards, 'label': label, 'kill_n': kn, 'kill_event': k.get('kill_event'),
+                        'events_before': k['events'][-6:]}
                 stats['kills'] += 1
                 res.count(['open-kill', label, kind, kn], nontrivial=True)
-                problems = []
-                try:
-                    with instr.Installed(clock):
-                        c = concdrv.make_object(kind, d, SETTINGS, timeout=1, shards=shards)
-                        try:
-                            before = sorted(c)
-                            for key, v in (('after1', 1), ('after2', BIG2), ('after3', 'x')):
-                                c.set(key, v, retry=True)
-                            keys = sorted(c)
-                            if len(c) != len(keys):
-                                problems.append(('open_kill:len_wrong', 'len() == %d but %d keys are stored (%r)' % (len(c), len(keys), keys)))
-                            for key, v in (('after1', 1), ('after2', BIG2), ('after3', 'x')):
-                                if c.get(key) != v:
-                                    problems.append(('open_kill:write_lost', 'item %r stored after the kill reads %r' % (key, c.get(key))))
-                            for call in setup:
-                                if c.get(call['key']) != call['value']:
-                                    problems.append(('open_kill:old_item_damaged', 'item %r stored before reads %r' % (call['key'], c.get(call['key']))))
-                            ws = [w for sh in concdrv.shards_of(c) for w in lib_check(sh)]
-                            bad = [w for w in ws if not issubclass(w.category, (diskcache.UnknownFileWarning, diskcache.EmptyDirWarning))]
-                            for w in bad[:1]:
-                                problems.append(('open_kill:check_reports', 'check() reports %r' % str(w.message).replace(d, '<dir>')))
-                        finally:
-                            concdrv.close_object(c)
-                    for sig, text in c06.consistency(d, kind, shards)[:2]:
-                        if sig != 'unknown_file':
-                            problems.append(('open_kill:' + sig, text))
-                except Exception as e:  # noqa
-                    problems.append(('open_kill:unusable', 'the directory cannot be opened and used after the kill: %r' % e))
                 for sig, text in problems[:2]:
                     res.violations.append(fw.Violation(sig, '%s [opening a %s %s directory, killed before event %d/%d = %s]' % (text, label, kind, kn, n, k.get('kill_event')), case))
                     stats['by_sig'][sig] = stats['by_sig'].get(sig, 0) + 1
-                shutil.rmtree(d, ignore_errors=True)
                 if c05.enough(res, ID, EXPECTED_SIGS):
                     break
-            shutil.rmtree(tmpl, ignore_errors=True)
+            if os.path.isdir(tmpl):
+                shutil.rmtree(tmpl, ignore_errors=True)
 
 
 class Counter(dict):
@@ -821,6 +837,17 @@ def replay(payload):
             print('contents:', snap['items'], 'check():', snap['check'])
             ok = not r['overflow'] and r['errors'][1] is None and not any(x[1] and x[2] == MISS for x in snap['items'])
             return ok
+        finally:
+            ctx.cleanup()
+    if case.get('check') == 'open_kill':
+        ctx = fw.Ctx('C07', 'quick', 1)
+        try:
+            setup = OPEN_SETUPS[case['label']]
+            tmpl = open_kill_template(ctx, case['kind'], case.get('shards', 1), setup)
+            problems, k = open_kill_case(ctx, case['kind'], case.get('shards', 1), setup, tmpl, case['kill_n'])
+            print('opening a %s %s directory, killed before event %s (%s); events executed: %s' % (case['label'], case['kind'], case['kill_n'], k.get('kill_event'), ' '.join(k['events'])))
+            print('monitor:', problems)
+            return not problems
         finally:
             ctx.cleanup()
     if case.get('check') != 'kill':
